@@ -26,12 +26,19 @@ type replayJob struct {
 }
 
 type replayOut struct {
-	ID         int         `json:"id"`
-	Start      bool        `json:"start,omitempty"`
-	Result     *vrt.Result `json:"result,omitempty"`
-	AllocBytes uint64      `json:"alloc_bytes"`
-	Tries      int         `json:"tries"`
+	ID         int              `json:"id"`
+	Start      bool             `json:"start,omitempty"`
+	Result     *vrt.Result      `json:"result,omitempty"`
+	AllocBytes uint64           `json:"alloc_bytes"`
+	Tries      int              `json:"tries"`
+	LoopTicks  map[string]int64 `json:"loop_ticks,omitempty"`
 }
+
+// set by the verification overlay (instrumented build) only
+var (
+	loopTicksFn    func() []int64
+	loopTicksReset func()
+)
 
 func runOne(h func(), name string, entries []vrt.Entry) (res *vrt.Result, alloc uint64) {
 	var ms0, ms1 runtime.MemStats
@@ -118,12 +125,24 @@ func TestReplay(t *testing.T) {
 		}
 		for i := 0; i < n; i++ {
 			tries++
+			if loopTicksReset != nil {
+				loopTicksReset()
+			}
 			res, alloc = runOne(h, j.Harness, j.Entries)
 			if !j.WantFail || failed(res) {
 				break
 			}
 		}
 		close(done)
-		emit(replayOut{ID: j.ID, Result: res, AllocBytes: alloc, Tries: tries})
+		o := replayOut{ID: j.ID, Result: res, AllocBytes: alloc, Tries: tries}
+		if loopTicksFn != nil {
+			o.LoopTicks = map[string]int64{}
+			for id, v := range loopTicksFn() {
+				if v > 0 {
+					o.LoopTicks[fmt.Sprint(id)] = v
+				}
+			}
+		}
+		emit(o)
 	}
 }
